@@ -210,16 +210,57 @@ theorem rpc_principal_none (cfg : Cfg) (s : State) (scope : Scope) (r : Request)
     rw [rpc_principal cfg s scope r q ha] at h
     cases h
 
-/-- the database scope never changes server state -/
+/-- `dispatch_db` leaves the server state alone, except that `db.set_read_only` *on the primary
+database* switches `primaryRO` -/
+theorem dispatchDb_state (cfg : Cfg) (s : State) (n : String) (p : Principal) (v : String) (e : Gen.ServerMethods.Effect)
+    (ps : RootParams) :
+    (dispatchDb cfg s n p v e ps).1 = s ∨
+      (n = cfg.primary ∧ ∃ b, (dispatchDb cfg s n p v e ps).1 = { s with primaryRO := b }) := by
+  unfold dispatchDb
+  split
+  · exact .inl rfl
+  · split
+    · exact .inl rfl
+    · split
+      · exact .inl rfl
+      · simp only
+        split
+        · rename_i hc
+          have hn : n = cfg.primary := by
+            simp only [Bool.and_eq_true, beq_iff_eq] at hc
+            exact hc.2
+          split
+          · rename_i b _
+            exact .inr ⟨hn, b, rfl⟩
+          · exact .inl rfl
+        · exact .inl rfl
+
+/-- the database scope changes nothing of the server state but (for the primary) `primaryRO` -/
 theorem rpc_database_state (cfg : Cfg) (s : State) (n : String) (r : Request) :
-    (rpc cfg s (.database n) r).1 = s := by
+    (rpc cfg s (.database n) r).1 = s ∨
+      (n = cfg.primary ∧ ∃ b, (rpc cfg s (.database n) r).1 = { s with primaryRO := b }) := by
   cases ha : authorizeState cfg s (.database n) (bearerToken r.auth) with
-  | error e => rw [rpc_rejected cfg s _ r e ha]
+  | error e => rw [rpc_rejected cfg s _ r e ha]; exact .inl rfl
   | ok p =>
     unfold rpc
     simp only [ha]
-    repeat' split
-    all_goals rfl
+    split
+    · exact .inl rfl
+    · split
+      · exact .inl rfl
+      · split
+        · exact .inl rfl
+        · exact dispatchDb_state _ _ _ _ _ _ _
+
+theorem rpc_database_state_ne (cfg : Cfg) (s : State) (n : String) (r : Request) (hn : n ≠ cfg.primary) :
+    (rpc cfg s (.database n) r).1 = s := by
+  rcases rpc_database_state cfg s n r with h | ⟨h, _⟩
+  · exact h
+  · exact absurd h hn
+
+theorem rpc_database_bound (cfg : Cfg) (s : State) (n : String) (r : Request) :
+    (rpc cfg s (.database n) r).1.bound = s.bound := by
+  rcases rpc_database_state cfg s n r with h | ⟨_, b, h⟩ <;> rw [h]
 
 /-- what the database scope can answer to an authorised caller -/
 theorem rpc_database_reply (cfg : Cfg) (s : State) (n : String) (r : Request) (p : Principal)
@@ -227,7 +268,7 @@ theorem rpc_database_reply (cfg : Cfg) (s : State) (n : String) (r : Request) (p
     (rpc cfg s (.database n) r).2.reply = .err .unsupportedMediaType ∨
     (rpc cfg s (.database n) r).2.reply = .err .badBody ∨
     (∃ m ps, r.body = .rpc m ps ∧ (rpc cfg s (.database n) r).2.reply = .err (.methodNotFound m)) ∨
-    (∃ v e, (rpc cfg s (.database n) r).2.reply = dispatchDb cfg s n p v e) := by
+    (∃ v e ps, (rpc cfg s (.database n) r).2.reply = (dispatchDb cfg s n p v e ps).2) := by
   unfold rpc
   simp only [h]
   split
@@ -238,7 +279,42 @@ theorem rpc_database_reply (cfg : Cfg) (s : State) (n : String) (r : Request) (p
       split
       · exact .inr (.inr (.inl ⟨m, ps, hb, rfl⟩))
       · rename_i v e _
-        exact .inr (.inr (.inr ⟨v, e, rfl⟩))
+        exact .inr (.inr (.inr ⟨v, e, ps, rfl⟩))
+
+/-! ## what a per-database principal can be answered -/
+
+/-- generated-table fact: the arm that calls `state.scoped_info` is handed the principal -/
+theorem scoped_info_gets_principal :
+    Gen.ServerMethods.dbDispatch.all (fun r => !(r.handler == "state.scoped_info") || r.usesPrincipal) = true := by
+  decide
+
+/-- What a response may carry towards the holder of the key of database `n`: errors that mention
+only `n` or the caller's own method name, handlers of `n`, and the scoped `info` view. -/
+def ConfinedReply (n : String) (r : Request) : Reply → Prop
+  | .err .unsupportedMediaType => True
+  | .err .badBody => True
+  | .err (.methodNotFound m) => ∃ ps, r.body = .rpc m ps
+  | .err (.dbNotFound n') => n' = n
+  | .err (.unknownHandler _) => True
+  | .handler n' _ _ _ _ => n' = n
+  | .root (.info none dbs) => dbs = [n]
+  | _ => False
+
+theorem dispatchDb_confined (cfg : Cfg) (s : State) (n v : String) (e : Gen.ServerMethods.Effect) (ps : RootParams) (r : Request) :
+    ConfinedReply n r (dispatchDb cfg s n .database v e ps).2 := by
+  unfold dispatchDb
+  split
+  · simp [ConfinedReply]
+  · split
+    · simp [ConfinedReply]
+    · rename_i row hrow
+      have hmem := dispatchIn_mem _ _ _ hrow
+      have hr := (List.all_eq_true.1 scoped_info_gets_principal) row hmem
+      split
+      · rename_i hh
+        have hp : row.usesPrincipal = true := by simpa [hh] using hr
+        simp [hp, scopedInfo, ConfinedReply]
+      · simp [ConfinedReply]
 
 /-! ## which root handler produced a result -/
 
@@ -276,7 +352,7 @@ theorem rpc_database_not_removed (cfg : Cfg) (s : State) (n : String) (r : Reque
     rw [rpc_rejected cfg s _ r e ha] at h
     cases h
   | ok p =>
-    rcases rpc_database_reply cfg s n r p ha with h1 | h1 | ⟨m, ps, _, h1⟩ | ⟨v, e, h1⟩
+    rcases rpc_database_reply cfg s n r p ha with h1 | h1 | ⟨m, ps, _, h1⟩ | ⟨v, e, ps, h1⟩
     · rw [h1] at h; cases h
     · rw [h1] at h; cases h
     · rw [h1] at h; cases h
@@ -348,8 +424,62 @@ theorem removeDbApiKey_unbinds (s s' : State) (n : String) (b : Bool)
     · rename_i hl
       cases h
       exact hl
-    · cases h
-      exact lookup_eraseKey_self _ _
+    · split at h
+      · cases h
+      · cases h
+        exact lookup_eraseKey_self _ _
+
+/-! ## persistence failures roll back -/
+
+theorem rpc_root_state (cfg : Cfg) (s : State) (r : Request) :
+    (rpc cfg s .root r).1 = s ∨ ∃ hd ps, (rpc cfg s .root r).1 = (rootHandler cfg s hd ps r.fresh).1 := by
+  cases ha : authorizeState cfg s .root (bearerToken r.auth) with
+  | error e => rw [rpc_rejected cfg s _ r e ha]; exact .inl rfl
+  | ok p =>
+    unfold rpc
+    simp only [ha]
+    split
+    · exact .inl rfl
+    · split
+      · exact .inl rfl
+      · rename_i m ps _
+        split
+        · exact .inl rfl
+        · split
+          · exact .inl rfl
+          · rename_i row _
+            right
+            refine ⟨row.handler, ps, ?_⟩
+            split
+            · rename_i heq; rw [heq]
+            · rename_i heq; rw [heq]
+
+theorem rootHandler_bound_of_ro (cfg : Cfg) (s : State) (hd : String) (p : RootParams) (f : String)
+    (hro : s.primaryRO = true) : (rootHandler cfg s hd p f).1.bound = s.bound := by
+  unfold rootHandler
+  split
+  · rfl
+  · split
+    · rfl
+    · cases hn : p.name with
+      | none => simp only; repeat' split
+                all_goals rfl
+      | some n =>
+        simp only
+        repeat' split
+        · cases hk : p.apiKey <;> unfold registerDb <;> simp only [hro, ↓reduceIte] <;> repeat' split
+          all_goals rfl
+        · unfold registerDb; simp only [hro, ↓reduceIte]; repeat' split
+          all_goals rfl
+        · unfold registerDb; simp only [hro, ↓reduceIte]; repeat' split
+          all_goals rfl
+        · unfold closeDb; repeat' split
+          all_goals rfl
+        · unfold setDbApiKey; simp only [hro, ↓reduceIte]; repeat' split
+          all_goals rfl
+        · unfold removeDbApiKey; simp only [hro, ↓reduceIte]; repeat' split
+          all_goals rfl
+        · rfl
 
 /-! ## invariants of the server state over histories -/
 
@@ -375,21 +505,19 @@ theorem checkApiKeyBinding_ok (cfg : Cfg) (n k : String) (h : checkApiKeyBinding
         · intro e; rw [e] at hadm; simp at hadm
         · simpa using hp
 
-theorem Inv_setKey (cfg : Cfg) (s : State) (n k : String) (h : Inv cfg s)
-    (hadm : cfg.admin ≠ none) (hn : n ≠ cfg.primary) (o r st : List String) :
-    Inv cfg { bound := setKey s.bound n k, opened := o, registry := r, stored := st } := by
+theorem Inv_setKey (cfg : Cfg) (s s' : State) (n k : String) (h : Inv cfg s)
+    (hadm : cfg.admin ≠ none) (hn : n ≠ cfg.primary) (hb : s'.bound = setKey s.bound n k) : Inv cfg s' := by
   refine ⟨fun e => absurd e hadm, ?_⟩
-  show lookup (setKey s.bound n k) cfg.primary = none
-  rw [lookup_setKey_ne _ _ _ _ (fun e => hn e.symm)]
+  rw [hb, lookup_setKey_ne _ _ _ _ (fun e => hn e.symm)]
   exact h.2
 
 theorem eraseKey_nil_of (m : List (String × String)) (n : String) (h : m = []) : eraseKey m n = [] := by
   subst h; rfl
 
-theorem Inv_eraseKey (cfg : Cfg) (s : State) (n : String) (h : Inv cfg s) :
-    Inv cfg { s with bound := eraseKey s.bound n } := by
-  refine ⟨fun e => eraseKey_nil_of _ _ (h.1 e), ?_⟩
-  show lookup (eraseKey s.bound n) cfg.primary = none
+theorem Inv_eraseKey (cfg : Cfg) (s s' : State) (n : String) (h : Inv cfg s)
+    (hb : s'.bound = eraseKey s.bound n) : Inv cfg s' := by
+  refine ⟨fun e => by rw [hb]; exact eraseKey_nil_of _ _ (h.1 e), ?_⟩
+  rw [hb]
   by_cases e : cfg.primary = n
   · rw [e]; exact lookup_eraseKey_self _ _
   · rw [lookup_eraseKey_ne _ _ _ e]; exact h.2
@@ -417,15 +545,15 @@ theorem registerDb_Inv (cfg : Cfg) (s : State) (mode : OpenMode) (n : String) (k
       · rename_i hchk
         have hk := checkApiKeyBinding_ok cfg n key hchk
         repeat' split
-        all_goals first | exact h | exact Inv_setKey cfg s n key h hk.1 hk.2 _ _ _
+        all_goals first
+          | exact h
+          | exact Inv_of_bound_eq cfg s _ h rfl
+          | exact Inv_setKey cfg s _ n key h hk.1 hk.2 rfl
 
 theorem closeDb_Inv (cfg : Cfg) (s : State) (n : String) (h : Inv cfg s) : Inv cfg (closeDb cfg s n).1 := by
   unfold closeDb
-  split
-  · exact h
-  · split
-    · exact h
-    · exact Inv_of_bound_eq cfg s _ h rfl
+  repeat' split
+  all_goals first | exact h | exact Inv_of_bound_eq cfg s _ h rfl
 
 theorem setDbApiKey_Inv (cfg : Cfg) (s : State) (n : String) (k : Option String) (f : String)
     (h : Inv cfg s) : Inv cfg (setDbApiKey cfg s n k f).1 := by
@@ -434,19 +562,15 @@ theorem setDbApiKey_Inv (cfg : Cfg) (s : State) (n : String) (k : Option String)
   split
   · exact h
   · rename_i hchk
-    split
-    · exact h
-    · have := checkApiKeyBinding_ok cfg n _ hchk
-      exact Inv_setKey cfg s n _ h this.1 this.2 _ _ _
+    have hk := checkApiKeyBinding_ok cfg n _ hchk
+    repeat' split
+    all_goals first | exact h | exact Inv_setKey cfg s _ n _ h hk.1 hk.2 rfl
 
 theorem removeDbApiKey_Inv (cfg : Cfg) (s : State) (n : String) (h : Inv cfg s) :
     Inv cfg (removeDbApiKey s n).1 := by
   unfold removeDbApiKey
-  split
-  · exact h
-  · split
-    · exact h
-    · exact Inv_eraseKey cfg s n h
+  repeat' split
+  all_goals first | exact h | exact Inv_eraseKey cfg s _ n h rfl
 
 theorem rootHandler_Inv (cfg : Cfg) (s : State) (handler : String) (p : RootParams) (f : String)
     (h : Inv cfg s) : Inv cfg (rootHandler cfg s handler p f).1 := by
@@ -475,7 +599,7 @@ theorem rpc_Inv (cfg : Cfg) (s : State) (scope : Scope) (r : Request) (h : Inv c
   | error e => rw [rpc_rejected cfg s _ r e ha]; exact h
   | ok p =>
     cases scope with
-    | database n => rw [rpc_database_state]; exact h
+    | database n => exact Inv_of_bound_eq cfg s _ h (rpc_database_bound cfg s n r)
     | root =>
       unfold rpc
       simp only [ha]
